@@ -180,7 +180,8 @@ def run_task(cls_name, ctype, cone, W, N, steps, batch, prop, tier, budget=None)
                    (aq, {"np": px}), (cr, {"np": px}), (ds, {"np": px}), (em, {"np": px}), (uu, {"np": px})]
         history = [snapshot(a)]
         ever_left = set()
-        ever_active = set(a.S) | set(getattr(a, "P", set()) if isinstance(getattr(a, "P", None), set) else set())
+        ever_active = set(getattr(a, "S", set())) | (set(a.P) if (not isinstance(getattr(type(a), "P", None), property)
+                                                                   and isinstance(getattr(a, "P", None), set)) else set())
         done = False
         extra = 0
         for step in range(steps + 2):
